@@ -13,6 +13,7 @@ import (
 	"pgregory.net/rapid"
 
 	"verif/harness/drv"
+	"verif/harness/hook"
 )
 
 func TestMain(m *testing.M) {
@@ -30,7 +31,7 @@ type Case struct {
 
 func params(late bool, scale int) Params {
 	p := Params{Pause: 200 * time.Microsecond, Settle: 2 * time.Millisecond, Bound: 4 * time.Second, Late: late}
-	if !haveHook {
+	if !hook.Have {
 		p.Settle = 120 * time.Millisecond
 		p.Bound = 12 * time.Second
 	}
